@@ -407,14 +407,19 @@ def analyse():
     return res
 
 
-def imm_ok(atoms, comp):
+def conjuncts(atoms, comp):
+    """(copies_ok, muts_clean, yields_ok) as in coq/model/Alias.v"""
     def clean(c):
         return not any(k in ('ASrc', 'AExt') and comp[x] == c for k, x, y in atoms)
     copies = all(comp[x] == comp[y] for k, x, y in atoms if k == 'ACopy')
     muts = all(clean(comp[x]) for k, x, y in atoms if k == 'AMut')
     mutated = {comp[x] for k, x, y in atoms if k == 'AMut'}
     ylds = all(comp[x] not in mutated for k, x, y in atoms if k == 'AYield')
-    return copies and muts and ylds
+    return copies, muts, ylds
+
+
+def imm_ok(atoms, comp):
+    return all(conjuncts(atoms, comp))
 
 
 def expected():
@@ -443,8 +448,10 @@ def generate():
     lines.append(';\n'.join(items))
     lines += ['  ].', '']
     exp = expected()
-    lines += ['Definition expected_immutable : list string :=',
-              '  [' + '; '.join('"%s"' % n for n in sorted(exp['ok'])) + '].', '']
+    for nm, key in (('expected_immutable', 'ok'), ('expected_copies_ok', 'copies_ok'), ('expected_muts_clean', 'muts_clean'),
+                    ('expected_yields_ok', 'yields_ok')):
+        lines += ['Definition %s : list string :=' % nm,
+                  '  [' + '; '.join('"%s"' % n for n in sorted(exp[key])) + '].', '']
     return '\n'.join(lines) + '\n'
 
 
@@ -453,9 +460,12 @@ if __name__ == '__main__':
     res = analyse()
     ok = sorted(n for n, a, c in res if imm_ok(a, c))
     bad = sorted(n for n, a, c in res if not imm_ok(a, c))
+    cj = {n: conjuncts(a, c) for n, a, c in res}
     if '--write' in sys.argv:
         with open(os.path.join(os.path.dirname(os.path.abspath(__file__)), 'mutation_expected.json'), 'w') as f:
-            json.dump({'ok': ok, 'not_verified_statically': bad}, f, indent=1, sort_keys=True)
+            json.dump({'ok': ok, 'not_verified_statically': bad,
+                       'copies_ok': sorted(n for n in cj if cj[n][0]), 'muts_clean': sorted(n for n in cj if cj[n][1]),
+                       'yields_ok': sorted(n for n in cj if cj[n][2])}, f, indent=1, sort_keys=True)
     print(len(ok), 'ok;', len(bad), 'not verified statically')
     for n in bad:
         a, c = [(a, c) for nn, a, c in res if nn == n][0]
